@@ -10,7 +10,8 @@ ID = 'C04'
 GEN_FILES = ['K_compress', 'K_p8png', 'K_p8png_codec']
 COQ_PROPERTY = 'theories/Properties/C04.vo'
 COQ_EXTRA = ['theories/Generated/K_p8png_selftest.vo', 'theories/Generated/K_p8png_codec_selftest.vo',
-             'theories/Generated/K_compress_selftest.vo']
+             'theories/Generated/K_compress_selftest.vo',
+             'theories/Properties/C04Chain.vo']     # C04_p8_png_p8: composition with the .p8 stack (C03's cone)
 MODEL = ('ExC04', 'c04_main.ml')
 MONITOR = ('MonC04', 'c04_mon_main.ml')
 CASE_TIMEOUT = 900
@@ -34,7 +35,9 @@ ASSUMPTIONS = [
 PARTIAL = ('"The written image is a valid PNG" and "pixels of the file" are runtime behaviour of pypng + zlib, outside the '
            'Coq model: observed on every case by an independent PNG reader (signature, CRCs, chunk order, zlib stream, '
            'filters, size), not proved. The theorems are about the pixel rows handed to / received from pypng. '
-           'The .p8 -> .p8.png -> .p8 chain is observed (thorough tier) but its theorem needs the C03 model.')
+           'The .p8 -> .p8.png -> .p8 chain: C04_p8_png_p8 (Properties/C04Chain.v) is proved at the model level with the '
+           'lexer-stack facts (echo writer reproduces the text, re-lexing succeeds) as hypotheses, as in C03; the real '
+           'chain is observed on the test carts and generated carts.')
 TRUSTED = ['harness/pngref.py (independent PNG reader/writer, ~150 lines, cross-checked against pypng on the test carts)',
            'Spec/P8PngSpec.v and Spec/PxcFormat.v: the cart image format transcribed by hand from the format notes',
            'pypng + zlib (container: observed, not modelled)']
@@ -51,8 +54,10 @@ CLAIM = dict(
           "plain was refused when its compressed form did not fit). Tie: stego channel expressions, header bytes, slice "
           "bounds, join order, size tests regenerated on every run; pixel loops / layout hand-modelled and compared on "
           "real files written by file.to_file and decoded by an independent PNG reader; extracted instance predicates "
-          "judge the real pixels and the real cart read back. PARTIAL: PNG container validity and the .p8->.p8.png->.p8 "
-          "chain are observed at run time, not proved."),
+          "judge the real pixels and the real cart read back. C04_p8_png_p8 (Properties/C04Chain.v) composes this with C03's .p8 round trip: "
+          ".p8 -> .p8.png -> .p8 succeeds at every step and preserves regions and version, the code up to the two readers' "
+          "normalisations (lexer-stack facts as hypotheses). PARTIAL: PNG container validity is observed at run time "
+          "with an independent PNG reader, not proved."),
     note=("Trusted: Coq kernel+VM, translator + sub-expression hook, ExtrOcamlBasic extraction, OCaml glue, "
           "harness/pngref.py, the hand transcription of the cart image format in Spec/P8PngSpec.v, the hand-modelled "
           "loops of Model/PngStego.v and Model/P8Png.v. pypng/zlib are not modelled."),
@@ -208,6 +213,10 @@ def generate(tier, rng):
     for v in (0, 1, 255) if quick else range(0, 256, 5):
         yield nxt(lua_program(rng, 300), 'versions', version=v)
         yield nxt(comment(hi_bytes(rng, 20)), 'versions', version=v)
+    # the two pixel functions alone: every (channel value, byte) pair on every channel, and odd image shapes
+    yield {'stego': 'all-pairs', 'tag': 'stego-all-pairs', 'seed': 1, 'code': '-', 'version': 0, 'regions': '-', 'dest': '-'}
+    for i, (w, h, n) in enumerate([(1, 1, 1), (1, 1, 0), (3, 2, 4), (3, 2, 6), (5, 3, 15), (7, 1, 3), (160, 2, 200), (16, 16, 255)]):
+        yield {'stego': [w, h, n], 'tag': 'stego-shapes', 'seed': 100 + i, 'code': '-', 'version': 0, 'regions': '-', 'dest': '-'}
     # .p8 -> .p8.png -> .p8 chains (observed; the .p8 codec itself belongs to C03)
     import glob
     for f in sorted(glob.glob(os.path.join(lib.REPO, 'tests', 'testdata', '*.p8'))):
@@ -279,8 +288,35 @@ def rows_hex(rows):
     return '|'.join(bytes(r).hex() for r in rows) if rows else '-'
 
 
+def _stego_input(case):
+    rng = random.Random(case['seed'])
+    if case['stego'] == 'all-pairs':
+        # pixel (row v, column b): channels (v, v^0x55, v^0xaa, 255-v), picodata byte b
+        rows = [bytes(x for b in range(256) for x in (v, v ^ 0x55, v ^ 0xaa, 255 - v)) for v in range(256)]
+        pd = bytes(b for v in range(256) for b in range(256))
+        return pd, rows, 256, 256
+    w, h, n = case['stego']
+    return rng.randbytes(n), [rng.randbytes(4 * w) for _ in range(h)], w, h
+
+
+def _run_stego(case):
+    from pico8.game.formatter import p8png
+    pd, rows, w, h = _stego_input(case)
+    obs = {'pd': lib.hx(pd), 'label': rows_hex(rows), 'wh': [w, h]}
+    try:
+        out = p8png.get_pngdata_from_picodata(pd, [bytearray(r) for r in rows], {'planes': 4})
+        obs['out'] = rows_hex(out)
+        back = p8png.get_picodata_from_pngdata(w, h, out, {'planes': 4})
+        obs['back'] = lib.hx(bytes(back))
+    except Exception as e:  # noqa
+        obs['stego_error'] = lib.exc_name(e)
+    return obs
+
+
 def run_impl(case):
     import pngref
+    if case.get('stego'):
+        return _run_stego(case)
     from pico8.game import file as gfile
     from pico8.game.game import Game
     from pico8.game.formatter import p8png
@@ -387,6 +423,11 @@ def _run_chain(case, g, d, obs):
 def model_requests(case, obs):
     if obs.get('timeout') or 'bad_lua' in obs or case.get('chain'):
         return []
+    if case.get('stego'):
+        reqs = ['stego %s 4 %s' % (obs['pd'], obs['label'])]
+        if 'out' in obs:
+            reqs.append('unstego %d %d 4 %s' % (obs['wh'][0], obs['wh'][1], obs['out']))
+        return reqs
     reqs = ['write %s %s %d 4 %s' % (' '.join(obs['regs']), obs['text'], case['version'], obs['label'])]
     if obs['raised'] is None and obs['out'] != '-':
         reqs.append('read 160 205 4 %s' % obs['out'])
@@ -397,6 +438,13 @@ def compare(case, obs, answers):
     if obs.get('timeout'):
         return 'implementation timed out'
     if 'bad_lua' in obs or case.get('chain'):
+        return None
+    if case.get('stego'):
+        exp = ['ERR ' + obs['stego_error']] if 'stego_error' in obs and 'out' not in obs else \
+            ['OK ' + obs['out'], ('OK ' + obs['back']) if 'back' in obs else 'ERR ' + obs.get('stego_error', '?')]
+        for e, a in zip(exp, answers):
+            if e != a:
+                return 'pixel functions: implementation %s..., model %s...' % (e[:70], a[:70])
         return None
     if obs['raised'] is not None:
         exp = 'ERR ' + obs['raised']
@@ -427,6 +475,10 @@ def compare(case, obs, answers):
 def monitor_requests(case, obs):
     if obs.get('timeout') or 'bad_lua' in obs:
         return []
+    if case.get('stego'):
+        if 'back' not in obs:
+            return ['pixels-' + obs.get('stego_error', 'failed')]
+        return ['pixels %s %s %s %s' % (obs['pd'], obs['label'], obs['out'], obs['back'])]
     if case.get('chain'):
         if 'chain_first' not in obs:
             return []
@@ -447,6 +499,8 @@ def monitor_requests(case, obs):
 
 
 def signature(case, obs):
+    if case.get('stego'):
+        return 'C04/stego/%s' % case['tag']
     if case.get('chain'):
         return 'C04/chain/%s' % case['chain']
     if obs.get('raised') is not None:
@@ -465,6 +519,8 @@ def what(case, obs):
 
 
 def describe(case, obs):
+    if case.get('stego'):
+        return {'tag': case['tag'], 'stego': case['stego']}
     d = {'tag': case.get('tag'), 'code_len': len(lib.unhx(case['code'])), 'version': case['version'],
          'regions': case['regions'], 'dest': case['dest']}
     if obs and not obs.get('timeout'):
@@ -476,6 +532,8 @@ def describe(case, obs):
 
 
 def nontrivial_key(case, obs):
+    if case.get('stego'):
+        return ('stego', str(case['stego']))
     if len(case['code']) > 1 and not obs.get('bad_lua'):
         return (case['code'], case['version'], case['dest'])
     return None
@@ -483,6 +541,8 @@ def nontrivial_key(case, obs):
 
 def histogram_key(case, obs):
     k = case.get('tag', 'cart').split('+')[0].split('-limit')[0]
+    if case.get('stego'):
+        return k
     if obs.get('bad_lua'):
         return 'not-a-lua-program'
     if case.get('chain'):
